@@ -217,6 +217,8 @@ func c11Worker(c *mc.Ctx) {
 	// repetitions of sequences of nullable terms (cycles of epsilon edges), rules that match the empty string included
 	nl := nullableLoopSpecs(c.Quick())
 	fams = append(fams, fam{"nullable-loops", int64(len(nl)), func(i int64) *lexref.Spec { return nl[i] }, 0})
+	cl := c11ClassSpecs()
+	fams = append(fams, fam{"classes-in-fragments", int64(len(cl)), func(i int64) *lexref.Spec { return cl[i] }, 0})
 	for _, f := range fams {
 		n := f.size
 		if f.limit > 0 && f.limit < n {
@@ -269,4 +271,44 @@ func init() {
 		Worker: c11Worker,
 		Replay: c11Replay,
 	})
+}
+
+// c11ClassSpecs: a class expression under + in a fragment that drops or keeps
+// what it matches, before a token rule over a..e. The classes are every ordered
+// pair of items from {a, c, a-b, b-d, a-d, a-e} (items nested in, overlapping,
+// adjacent to one another), plain, negated and as the right-hand side of a
+// difference: a class that comes out LARGER than its meaning makes the fragment
+// swallow text that no discarding rule of the specification matches.
+func c11ClassSpecs() []*lexref.Spec {
+	items := []lexref.ClassItem{lexref.Ch('a'), lexref.Ch('c'), lexref.Range('a', 'b'), lexref.Range('b', 'd'), lexref.Range('a', 'd'), lexref.Range('a', 'e')}
+	ae := func() *lexref.Class { return &lexref.Class{Items: []lexref.ClassItem{lexref.Range('a', 'e')}} }
+	var out []*lexref.Spec
+	for _, x := range items {
+		for _, y := range items {
+			pair := []lexref.ClassItem{x, y}
+			for form := 0; form < 3; form++ {
+				var cl *lexref.Class
+				switch form {
+				case 0:
+					cl = &lexref.Class{Items: pair}
+				case 1:
+					cl = &lexref.Class{Neg: true, Items: pair}
+				case 2:
+					cl = ae()
+					cl.Sub = &lexref.Class{Items: pair}
+				}
+				for kind := 0; kind < 2; kind++ {
+					s := &lexref.Spec{Modes: []lexref.Mode{{}}}
+					fr := lexref.Rule{K: lexref.RFrag, Rx: lexref.Rep(lexref.Cls(cl), lexref.CPlus)}
+					if kind == 0 {
+						fr.Actions = []lexref.Action{{K: lexref.ADiscard}}
+					}
+					s.Modes[0].Rules = append(s.Modes[0].Rules, fr,
+						lexref.Rule{K: lexref.RToken, Name: "T1", Rx: lexref.Cls(ae())})
+					out = append(out, s)
+				}
+			}
+		}
+	}
+	return out
 }
